@@ -130,6 +130,13 @@ pub fn decode(s: &mut Src) -> Case {
     let mut right = coord(s, win_w as usize);
     let mut top = coord(s, win_h as usize);
     let mut bottom = coord(s, win_h as usize);
+    // half of the cases: a rectangle well inside the window (the exactness oracle applies to these)
+    if s.bool() {
+        left = s.below(win_w as usize) as u16;
+        right = left + s.below(win_w as usize - left as usize) as u16;
+        top = s.below(win_h as usize) as u16;
+        bottom = top + s.below(win_h as usize - top as usize) as u16;
+    }
     // mostly ordered rectangles, sometimes inverted
     if !s.chance(48) {
         if left > right {
@@ -261,7 +268,7 @@ pub fn check(rep: &Report) {
     rep.assume("out-of-bounds reads and writes in front of the buffers are only observable in the AddressSanitizer build of this check (run by the same command when that binary is present)");
     rep.extra("address_sanitizer", serde_json::json!(cfg!(verif_asan)));
     rep.enumerate("small-exhaustive", true, small, run);
-    rep.random("geometry", rep.tier.n(150_000, 10_000_000), 120, decode, run);
-    rep.require("geometry", "exact-copy-checked", 5_000);
+    rep.random("geometry", rep.tier.n(600_000, 20_000_000), 120, decode, run);
+    rep.require("geometry", "exact-copy-checked", 20_000);
     rep.require("geometry", "out-of-window", 5_000);
 }
